@@ -63,11 +63,26 @@ Definition sum_by {A : Type} (f : A -> Z) (l : list A) : Z := fold_right (fun r 
 Definition max_reported_of (cum : Z) (gaps : list (Z * Z)) : Z :=
   fold_left (fun mr g => let be := wadd32 cum (snd g) in if i32_sub be mr >? 0 then be else mr) gaps cum.
 
-(* 0. "late SACK" filter: uses the numerically lowest key of the BTreeMap *)
-Definition late_sack (sent : list rec) (cum : Z) (gaps : list (Z * Z)) : bool :=
+(* 0. "late SACK" filter.  The oldest outstanding TSN: the first key, unless the keys straddle the
+   2^32 wrap (last - first negative as i32), then the first key of the upper half
+   (BTreeMap::range(0x8000_0000..).next()).  [fixed code; the unfixed filter used the first key] *)
+Definition oldest_tsn (sent : list rec) : option Z :=
   match sent with
-  | [] => false
-  | r0 :: _ => (i32_sub cum (wrap32 (r_tsn r0 - 1)) <? 0) && (i32_sub (max_reported_of cum gaps) (r_tsn r0) <? 0)
+  | [] => None
+  | r0 :: _ =>
+      let first := r_tsn r0 in
+      let last := r_tsn (List.last sent r0) in
+      if i32_sub last first <? 0
+      then match find (fun r => OLDEST_UPPER_HALF <=? r_tsn r) sent with
+           | Some r => Some (r_tsn r)
+           | None => Some first
+           end
+      else Some first
+  end.
+Definition late_sack (sent : list rec) (cum : Z) (gaps : list (Z * Z)) : bool :=
+  match oldest_tsn sent with
+  | None => false
+  | Some lowest => (i32_sub cum (wrap32 (lowest - 1)) <? 0) && (i32_sub (max_reported_of cum gaps) lowest <? 0)
   end.
 
 (* 1. cumulative removal: (tsn.wrapping_sub(cum) as i32) <= 0 *)
